@@ -3,6 +3,7 @@ package wire
 import (
 	"bytes"
 	"context"
+	"encoding/binary"
 	"errors"
 	"fmt"
 	"io"
@@ -125,6 +126,58 @@ type BinaryCopyReader struct {
 	typeMap  *pgtype.Map
 	reader   *CopyReader
 	scanners []Scanner
+	pending  []byte // bytes received from the client which have not been decoded yet
+	started  bool   // whether the (optional) stream header has been handled
+	done     bool   // whether the client completed the copy-in stream
+}
+
+// read reads the next copy data message. io.EOF is returned once the client
+// completed the copy-in stream, no further messages are consumed afterwards.
+func (r *BinaryCopyReader) read() error {
+	if r.done {
+		return io.EOF
+	}
+
+	err := r.reader.Read()
+	if err == io.EOF {
+		r.done = true
+	}
+
+	return err
+}
+
+// fill reads copy data messages until at least n undecoded bytes are pending.
+// A row could be split over any number of copy data messages. io.EOF is
+// returned once the client completed the copy-in stream.
+func (r *BinaryCopyReader) fill(n int) error {
+	for len(r.pending) < n {
+		err := r.read()
+		if err != nil {
+			return err
+		}
+
+		r.pending = append(r.pending, r.reader.Msg...)
+		r.reader.Msg = r.reader.Msg[len(r.reader.Msg):]
+	}
+
+	return nil
+}
+
+// next returns the next n bytes of the copy-in stream. An unexpected EOF is
+// returned when the stream ends before n bytes have been received.
+func (r *BinaryCopyReader) next(n int) ([]byte, error) {
+	err := r.fill(n)
+	if err == io.EOF {
+		return nil, io.ErrUnexpectedEOF
+	}
+
+	if err != nil {
+		return nil, err
+	}
+
+	value := r.pending[:n]
+	r.pending = r.pending[n:]
+	return value, nil
 }
 
 // Read reads a single row from the copy-in stream. The read row is returned as a
@@ -135,31 +188,45 @@ func (r *BinaryCopyReader) Read(ctx context.Context) (_ []any, err error) {
 		return nil, ctx.Err()
 	}
 
-	// NOTE: read the next chunk from the copy-in stream if the current chunk is empty.
-	if len(r.reader.Msg) == 0 {
-		err = r.reader.Read()
-		if err != nil {
+	if !r.started {
+		r.started = true
+
+		err = r.fill(len(CopySignature))
+		if err != nil && err != io.EOF {
 			return nil, err
 		}
 
-		has := bytes.HasPrefix(r.reader.Msg, CopySignature)
-		if has {
-			_, err = r.reader.GetBytes(len(CopySignature))
-			if err != nil {
-				return nil, err
-			}
-
+		if bytes.HasPrefix(r.pending, CopySignature) {
 			// NOTE: 2 x 32-bit integer fields are send after the signature which we ignore for now.
-			_, err = r.reader.GetBytes(8)
+			_, err = r.next(len(CopySignature) + 8)
 			if err != nil {
 				return nil, err
 			}
 		}
 	}
 
-	fields, err := r.reader.GetUint16()
+	// NOTE: the stream is completed whenever the client is done in between two rows.
+	err = r.fill(1)
 	if err != nil {
 		return nil, err
+	}
+
+	header, err := r.next(2)
+	if err != nil {
+		return nil, err
+	}
+
+	fields := binary.BigEndian.Uint16(header)
+
+	// NOTE: the file trailer consists of a 16-bit integer word containing -1.
+	// Anything send after the trailer is ignored up until the stream is completed.
+	if fields == math.MaxUint16 {
+		for {
+			err = r.read()
+			if err != nil {
+				return nil, err
+			}
+		}
 	}
 
 	if int(fields) != len(r.scanners) {
@@ -167,19 +234,24 @@ func (r *BinaryCopyReader) Read(ctx context.Context) (_ []any, err error) {
 	}
 
 	row := make([]any, fields)
-	for index := range fields {
-		length, err := r.reader.GetUint32()
+	for index := range row {
+		header, err = r.next(4)
 		if err != nil {
 			return nil, fmt.Errorf("unexpected field length: %w", err)
 		}
 
+		length := binary.BigEndian.Uint32(header)
+
 		// NOTE: as a special case, -1 (or 255 255 255 255) indicates a NULL field value.
 		if length == math.MaxUint32 {
-			// r.row[index] = nil
 			continue
 		}
 
-		value, err := r.reader.GetBytes(int(length))
+		if int(length) > r.reader.MaxMessageSize {
+			return nil, fmt.Errorf("unexpected field length: %d exceeds the maximum message size", length)
+		}
+
+		value, err := r.next(int(length))
 		if err != nil {
 			return nil, fmt.Errorf("unexpected value: %w", err)
 		}
